@@ -159,6 +159,31 @@ def _reply_assembly(code_i, text_i, nmid, m1, m2, m3, same_prefix_mid, lf_only, 
     return reply2.code == int(code2) and reply2.text == 'next'
 
 
+_TAILS = [b'', b'===226 Transfer complete', b' 226 done', b'226-x', b'\r226 ok']
+
+
+def _long_reply_line(tail_i, first):
+    """A reply containing a line longer than the 64 KiB reader limit, delivered whole or with a pause inside that line: the outcome
+    (error, or code/text and what is left unread) does not depend on how the bytes arrived."""
+    tail = pick(_TAILS, tail_i)
+    long_line = b'x' * 70000 + tail + b'\r\n'
+    head = b'' if first else b'230-Welcome\r\n'
+    wire = head + long_line + b'230 Logged in.\r\n' + b'200 Type set to I.\r\n'
+    outcomes = []
+    for arrive in (None, len(head) + 70000):
+        conn = FakeConnection(wire)
+        conn.arrive = arrive
+        cs = ControlStream(conn)
+        try:
+            r1 = run(cs.read_reply())
+            out = (r1.code, conn.unread())
+        except (ProtocolError, NetworkError):
+            out = 'error'
+        outcomes.append(out)
+    hit('error' if outcomes[0] == 'error' else 'read')
+    return outcomes[0] == outcomes[1]
+
+
 # ---------------------------------------------------------------- transfer completion
 class _FakeData:
     def __init__(self, chunks, fail):
@@ -204,6 +229,47 @@ def _transfer_completion(code_i, has_reply, data_fails, multi):
     hit('complete')
     # "complete" only after the data connection reached EOF AND the server confirmed with 226
     return data.eof_seen and has_reply and code == '226' and reply.code == 226 and b''.join(sink.parts) == b'abc'
+
+
+def _session_completion(code_i, has_reply, data_fails, multi):
+    """The same through Session.download: the `end_transfer` event (what the WARC recorder turns into a resource record) is published
+    exactly when the transfer completed."""
+    import io
+    import weakref
+    from wpull.protocol.ftp.client import Session, SessionState
+    from wpull.protocol.ftp.request import Response as FResponse, Request as FRequest
+    code = pick(['226', '426', '451', '552', '250', '200', '150', '550'], code_i)
+    wire = b''
+    if has_reply:
+        wire = (code + '-Closing\r\n' + code + ' done\r\n').encode() if multi else (code + ' done\r\n').encode()
+    import types
+    import wpull.protocol.ftp.client as FC
+
+    def _wait_for(fut, timeout=None):
+        return (yield from fut)
+    ns = types.SimpleNamespace(**{k: getattr(asyncio, k) for k in dir(asyncio) if not k.startswith('__')})
+    ns.wait_for = _wait_for                          # no duration timeout in the harness (hand-driven coroutines, no running loop)
+    FC.asyncio = ns
+    with nosym():
+        sess = Session(login_table=weakref.WeakKeyDictionary(), connection_pool=None)
+        sess._commander = Commander(ControlStream(FakeConnection(wire)))
+        data = _FakeData([b'ab', b'c'], data_fails)
+        sess._data_stream = data
+        sess._request = FRequest('ftp://h.example/f')
+        sess._response = FResponse()
+        sess._response.request = sess._request
+        sess._session_state = SessionState.file_request_sent
+        published = []
+        sess.event_dispatcher.add_listener(Session.Event.end_transfer, published.append)
+        out = io.BytesIO()
+    good = has_reply and code == '226' and not data_fails
+    try:
+        resp = run(sess.download(out))
+    except (ServerError, NetworkError, ProtocolError):
+        hit('incomplete')
+        return not good and published == []           # a failed transfer is never published as finished
+    hit('complete')
+    return good and len(published) == 1 and resp.reply.code == 226 and out.getvalue() == b'abc'
 
 
 _NUMS = [0, 1, 10, 255, 256, 999, 1000]
@@ -255,6 +321,18 @@ HARNESSES = [
       funcs=['wpull/protocol/ftp/stream.py:ControlStream.read_reply', 'wpull/protocol/ftp/request.py:Reply.parse'],
       doc='single and multi-line replies (0-3 continuation lines of 6 shapes incl. indented lines beginning with digits, CRLF or LF): '
           'read_reply returns the RFC 959 code and text, consumes exactly that reply, reads only line-wise; a reply cut short - inside a line, or at the end of a line that lacks its LF - is an error'),
+    H('long_reply_line', '_long_reply_line', 'tail_i: int, first: bool', pre=['0 <= tail_i < %d' % len(_TAILS)],
+      timeout={'quick': 120, 'thorough': 300}, samples=[(1, False), (0, True)], need=['error'],
+      funcs=['wpull/protocol/ftp/stream.py:ControlStream.read_reply'],
+      doc='a reply line over the 64 KiB reader limit (first or continuation line, 5 tails that look like a final line) delivered in one '
+          'piece or with a pause inside the line (the stream reader then discards only the part received): same outcome either way'),
+    H('session_completion', '_session_completion', 'code_i: int, has_reply: bool, data_fails: bool, multi: bool',
+      pre=['0 <= code_i <= 7'], timeout={'quick': 120, 'thorough': 300}, samples=[(0, True, False, False), (1, True, False, True), (0, False, False, False)],
+      need=['complete', 'incomplete'],
+      funcs=['wpull/protocol/ftp/client.py:Session.download', 'wpull/protocol/ftp/command.py:Commander.read_stream'],
+      doc='Session.download over the same cases: it returns and publishes end_transfer (the recorder\'s cue to write the resource '
+          'record) only for a transfer whose data connection reached EOF and that the server confirmed with 226; every failure raises '
+          'and publishes nothing'),
     H('transfer_completion', '_transfer_completion', 'code_i: int, has_reply: bool, data_fails: bool, multi: bool',
       pre=['0 <= code_i <= 7'], timeout={'quick': 120, 'thorough': 300}, samples=[(0, True, False, False), (1, True, False, True), (0, False, False, False)],
       need=['complete', 'incomplete'],
